@@ -181,6 +181,26 @@ def run_case(seed, tier, rec, st):
             wirings = {"holder": lambda d: mod.H.from_dict({"p": d}).p,
                        "holder-list": lambda d: mod.H.from_dict({"p": d, "q": [d]}).q[0],
                        "codec": dec.decode, "codec-dict": lambda d: dec_list.decode({"x": d})["x"]}
+            if mode == "tagger":
+                # a second member of the same holder dispatched by the OTHER tagger function
+                other_tg = "tagger_list" if tg == "tagger_single" else "tagger_single"
+                fam.exec_src(f"@dataclass\nclass H2(DataClassDictMixin):\n    p: DISC\n    r: Annotated[R, Discriminator(field='k', include_subtypes=True, include_supertypes={inc_super}, variant_tagger_fn={other_tg})] = None\n")
+                other_fn = getattr(mod, other_tg)
+
+                def second(d, other_fn=other_fn):
+                    # d is tagged for the first function; the same class tagged for the second one goes to member r
+                    import copy
+                    t1 = d.get("k") if isinstance(d, dict) else None
+                    cls_ = next((c for c in order if t1 in (tagger(getattr(mod, c)) if isinstance(tagger(getattr(mod, c)), list) else [tagger(getattr(mod, c))])), None)
+                    if cls_ is None:
+                        return mod.H2.from_dict({"p": d}).p
+                    tv = other_fn(getattr(mod, cls_))
+                    d2 = dict(d, k=tv[0] if isinstance(tv, list) else tv)
+                    h = mod.H2.from_dict({"p": d, "r": d2})
+                    if type(h.r) is not type(h.p):
+                        raise AssertionError(f"second tagger resolved {type(h.r).__name__}, first {type(h.p).__name__}")
+                    return h.r
+                wirings["holder-two-taggers"] = second
             if mode == "annotated":
                 # the same metadata written OUTSIDE a wrapper of the class: Annotated[Optional[R], D], Annotated[List[R], D]
                 fam.exec_src(f"@dataclass\nclass HO(DataClassDictMixin):\n    o: Annotated[Optional[R], {pre_ann}{disc}] = None\n    l: Annotated[List[R], {pre_ann}{disc}] = field(default_factory=list)\n")
